@@ -2,7 +2,7 @@ CHECK = {
     "level": "exploration",
     "assumptions": [
         "FSM.ApplyBatch is driven directly (no hashicorp/raft runtime, no chunked entries); the log store, elections and the network are not part of this check",
-        "the reference replay trusts a verification whose read set no committed entry between the start index and the position wrote (identical to always-verify for hashes computed from the state at the start index; only matters for the ~8% forged hashes)",
+        "verification hashes are those a leader computes from the state at the transaction's start index; wrong ('forged') hashes are generated only for keys/listings written inside the transaction's window, where every replica must verify them (a wrong hash on untouched data is trusted by design of the fast path)",
         "LowestActiveIndex is shipped as a correct leader computes it (min start of the transactions open at proposal time, capped by the applied index); the lagging-FSM leader of finding F7 is C08's subject",
         "snapshots of an empty data bucket are not generated (the sink creates no file for them)",
     ],
